@@ -106,7 +106,7 @@ class Worker:
         dbg = os.environ.get("VERIF_ENGINE_PRELOAD")  # diagnosis only: an instrumented copy of a repo library in front of the engine, its stderr to a file
         if dbg:
             env = dict(env if env is not None else os.environ, LD_PRELOAD=dbg)
-        self.p = subprocess.Popen([self.exe], stdin=subprocess.PIPE, stdout=subprocess.PIPE, stderr=open(os.environ["VERIF_ENGINE_STDERR"], "a") if dbg and os.environ.get("VERIF_ENGINE_STDERR") else subprocess.DEVNULL, text=True, bufsize=1, env=env)
+        self.p = subprocess.Popen([self.exe], stdin=subprocess.PIPE, stdout=subprocess.PIPE, stderr=open(os.environ["VERIF_ENGINE_STDERR"], "a") if dbg and os.environ.get("VERIF_ENGINE_STDERR") else subprocess.DEVNULL, text=True, encoding="utf-8", errors="replace", bufsize=1, env=env)
 
     def close(self):
         try:
